@@ -25,7 +25,22 @@ STUBSETS['case'] = [
 ]
 STUBSETS['width'] = [('precis_profiles::usernames::get_decomposition_mapping', 'crate::stubs::st_width')]
 
+STUBSETS['compat'] = [('precis_core::common::has_compat', 'crate::stubs::st_has_compat')]
+
+STUBSETS['pred'] = [('precis_core::common::' + a, 'crate::stubs::' + b) for a, b in [
+    ('get_exception_val', 'sp_exception'), ('get_backward_compatible_val', 'sp_backward'), ('is_unassigned', 'sp_unassigned'),
+    ('is_ascii7', 'sp_ascii7'), ('is_join_control', 'sp_join_control'), ('is_old_hangul_jamo', 'sp_old_hangul_jamo'),
+    ('is_precis_ignorable_property', 'sp_ignorable'), ('is_control', 'sp_control'), ('has_compat', 'sp_has_compat'),
+    ('is_letter_digit', 'sp_letter_digit'), ('is_other_letter_digit', 'sp_other_letter_digit'), ('is_space', 'sp_space'),
+    ('is_symbol', 'sp_symbol'), ('is_punctuation', 'sp_punctuation')]]
+
 STUB_DOC = {
+    'pred': 'S-PRED: each table predicate of precis_core::common returns an arbitrary outcome fixed by the solver for the run '
+            '(sound for a harness that evaluates a single code point, because the predicates are pure functions of it); '
+            'Exceptions/BackwardCompatible values range over the class-independent values',
+    'compat': 'S-COMPAT: precis_core::common::has_compat (NFKC of a symbolic character: out of reach) replaced by the HasCompat set '
+              'computed by oracle/gen.py; gen.py aborts unless that set equals the real unicode-normalization crate on every code '
+              'point assigned in 6.3.0 (exhaustive native evaluation, reported in coverage.oracle_inputs)',
     'case': 'S-CASE: core::unicode::conversions::to_lower and unicode_data::lowercase::lookup replaced by a model on the witness '
             'alphabet SIGMA_CASE (validated against the real std functions by harness c10_model_valid; outside the alphabet = inconclusive)',
     'width': 'S-WIDTH: usernames::get_decomposition_mapping replaced by the UnicodeData 16.0.0 oracle function (Layer A harness '
@@ -76,13 +91,24 @@ class H:
     def stub_pairs(self):
         out = []
         for s in self.stubs:
+            if s.startswith('pred-except:'):
+                keep = s.split(':', 1)[1]
+                out.extend([p for p in STUBSETS['pred'] if p[0] != 'precis_core::common::' + keep])
+                continue
             out.extend(STUBSETS[s])
         for t, r, _ in self.extra_stubs:
             out.append((t, r))
         return out
 
     def stub_docs(self):
-        return [STUB_DOC[s] for s in self.stubs] + [d for _, _, d in self.extra_stubs]
+        out = []
+        for s in self.stubs:
+            if s.startswith('pred-except:'):
+                out.append('S-PRED constants (all false, Punctuation symbolic) for every table predicate EXCEPT %s, which runs '
+                           'on its real generated tables' % s.split(':', 1)[1])
+            else:
+                out.append(STUB_DOC[s])
+        return out + [d for _, _, d in self.extra_stubs]
 
 
 Q = ('quick', 'thorough')
@@ -91,6 +117,11 @@ T = ('thorough',)
 F_CMP = ['precis_core::Codepoints: PartialEq<u32>, PartialOrd<u32> (eq/ne/lt/le/gt/ge/partial_cmp)',
          'u32: PartialEq<Codepoints>, PartialOrd<Codepoints> (mirrored impls)']
 F_SEARCH = ['core::slice::binary_search_by', 'Codepoints::partial_cmp(&u32)']
+
+F14 = ['stringclasses::get_derived_property_value', 'IdentifierClass/FreeformClass::get_value_from_codepoint/get_value_from_char',
+       'common::{get_exception_val, get_backward_compatible_val, is_unassigned, is_ascii7, is_join_control, is_old_hangul_jamo, '
+       'is_precis_ignorable_property, is_control, is_letter_digit, is_other_letter_digit, is_space, is_symbol, is_punctuation}',
+       'generated precis_tables.rs (6.3.0)'] + F_SEARCH
 
 HARNESSES = [
     # ---------------------------------------------------------------- C18
@@ -158,6 +189,126 @@ HARNESSES = [
     H('C11', 'c11_width_map_n4', 'crate::c11::width_map::<4, 16, _>', unwind=6, stubs=('str', 'width'), tiers=T, timeout=3000, mem_gb=20,
       funcs=['usernames::width_mapping_rule (both username profiles)', 'usernames::has_width_mapping'],
       bound='strings of 0..=4 characters, every character any Unicode scalar value; table lookup stubbed by the oracle (S-WIDTH)'),
+    # ---------------------------------------------------------------- C14
+    H('C14', 'c14_id_chunk_00', 'crate::c14::id_chunk::<0, _>', unwind=12, stubs=('compat',), tiers=T, timeout=3400, mem_gb=8,
+      funcs=F14, bound='IdentifierClass, every u32 in chunk 0 of 16 (the chunks partition 0..=u32::MAX; see coverage.oracle_inputs.dpv_chunks)'),
+    H('C14', 'c14_id_chunk_01', 'crate::c14::id_chunk::<1, _>', unwind=12, stubs=('compat',), tiers=T, timeout=3400, mem_gb=8,
+      funcs=F14, bound='IdentifierClass, every u32 in chunk 1 of 16 (the chunks partition 0..=u32::MAX; see coverage.oracle_inputs.dpv_chunks)'),
+    H('C14', 'c14_id_chunk_02', 'crate::c14::id_chunk::<2, _>', unwind=12, stubs=('compat',), tiers=T, timeout=3400, mem_gb=8,
+      funcs=F14, bound='IdentifierClass, every u32 in chunk 2 of 16 (the chunks partition 0..=u32::MAX; see coverage.oracle_inputs.dpv_chunks)'),
+    H('C14', 'c14_id_chunk_03', 'crate::c14::id_chunk::<3, _>', unwind=12, stubs=('compat',), tiers=T, timeout=3400, mem_gb=8,
+      funcs=F14, bound='IdentifierClass, every u32 in chunk 3 of 16 (the chunks partition 0..=u32::MAX; see coverage.oracle_inputs.dpv_chunks)'),
+    H('C14', 'c14_id_chunk_04', 'crate::c14::id_chunk::<4, _>', unwind=12, stubs=('compat',), tiers=T, timeout=3400, mem_gb=8,
+      funcs=F14, bound='IdentifierClass, every u32 in chunk 4 of 16 (the chunks partition 0..=u32::MAX; see coverage.oracle_inputs.dpv_chunks)'),
+    H('C14', 'c14_id_chunk_05', 'crate::c14::id_chunk::<5, _>', unwind=12, stubs=('compat',), tiers=T, timeout=3400, mem_gb=8,
+      funcs=F14, bound='IdentifierClass, every u32 in chunk 5 of 16 (the chunks partition 0..=u32::MAX; see coverage.oracle_inputs.dpv_chunks)'),
+    H('C14', 'c14_id_chunk_06', 'crate::c14::id_chunk::<6, _>', unwind=12, stubs=('compat',), tiers=T, timeout=3400, mem_gb=8,
+      funcs=F14, bound='IdentifierClass, every u32 in chunk 6 of 16 (the chunks partition 0..=u32::MAX; see coverage.oracle_inputs.dpv_chunks)'),
+    H('C14', 'c14_id_chunk_07', 'crate::c14::id_chunk::<7, _>', unwind=12, stubs=('compat',), tiers=T, timeout=3400, mem_gb=8,
+      funcs=F14, bound='IdentifierClass, every u32 in chunk 7 of 16 (the chunks partition 0..=u32::MAX; see coverage.oracle_inputs.dpv_chunks)'),
+    H('C14', 'c14_id_chunk_08', 'crate::c14::id_chunk::<8, _>', unwind=12, stubs=('compat',), tiers=T, timeout=3400, mem_gb=8,
+      funcs=F14, bound='IdentifierClass, every u32 in chunk 8 of 16 (the chunks partition 0..=u32::MAX; see coverage.oracle_inputs.dpv_chunks)'),
+    H('C14', 'c14_id_chunk_09', 'crate::c14::id_chunk::<9, _>', unwind=12, stubs=('compat',), tiers=T, timeout=3400, mem_gb=8,
+      funcs=F14, bound='IdentifierClass, every u32 in chunk 9 of 16 (the chunks partition 0..=u32::MAX; see coverage.oracle_inputs.dpv_chunks)'),
+    H('C14', 'c14_id_chunk_10', 'crate::c14::id_chunk::<10, _>', unwind=12, stubs=('compat',), tiers=T, timeout=3400, mem_gb=8,
+      funcs=F14, bound='IdentifierClass, every u32 in chunk 10 of 16 (the chunks partition 0..=u32::MAX; see coverage.oracle_inputs.dpv_chunks)'),
+    H('C14', 'c14_id_chunk_11', 'crate::c14::id_chunk::<11, _>', unwind=12, stubs=('compat',), tiers=T, timeout=3400, mem_gb=8,
+      funcs=F14, bound='IdentifierClass, every u32 in chunk 11 of 16 (the chunks partition 0..=u32::MAX; see coverage.oracle_inputs.dpv_chunks)'),
+    H('C14', 'c14_id_chunk_12', 'crate::c14::id_chunk::<12, _>', unwind=12, stubs=('compat',), tiers=T, timeout=3400, mem_gb=8,
+      funcs=F14, bound='IdentifierClass, every u32 in chunk 12 of 16 (the chunks partition 0..=u32::MAX; see coverage.oracle_inputs.dpv_chunks)'),
+    H('C14', 'c14_id_chunk_13', 'crate::c14::id_chunk::<13, _>', unwind=12, stubs=('compat',), tiers=T, timeout=3400, mem_gb=8,
+      funcs=F14, bound='IdentifierClass, every u32 in chunk 13 of 16 (the chunks partition 0..=u32::MAX; see coverage.oracle_inputs.dpv_chunks)'),
+    H('C14', 'c14_id_chunk_14', 'crate::c14::id_chunk::<14, _>', unwind=12, stubs=('compat',), tiers=T, timeout=3400, mem_gb=8,
+      funcs=F14, bound='IdentifierClass, every u32 in chunk 14 of 16 (the chunks partition 0..=u32::MAX; see coverage.oracle_inputs.dpv_chunks)'),
+    H('C14', 'c14_id_chunk_15', 'crate::c14::id_chunk::<15, _>', unwind=12, stubs=('compat',), tiers=T, timeout=3400, mem_gb=8,
+      funcs=F14, bound='IdentifierClass, every u32 in chunk 15 of 16 (the chunks partition 0..=u32::MAX; see coverage.oracle_inputs.dpv_chunks)'),
+    H('C14', 'c14_free_chunk_00', 'crate::c14::free_chunk::<0, _>', unwind=12, stubs=('compat',), tiers=T, timeout=1500, mem_gb=8,
+      funcs=F14, bound='FreeformClass, every u32 in chunk 0 of 16'),
+    H('C14', 'c14_free_chunk_01', 'crate::c14::free_chunk::<1, _>', unwind=12, stubs=('compat',), tiers=T, timeout=1500, mem_gb=8,
+      funcs=F14, bound='FreeformClass, every u32 in chunk 1 of 16'),
+    H('C14', 'c14_free_chunk_02', 'crate::c14::free_chunk::<2, _>', unwind=12, stubs=('compat',), tiers=T, timeout=1500, mem_gb=8,
+      funcs=F14, bound='FreeformClass, every u32 in chunk 2 of 16'),
+    H('C14', 'c14_free_chunk_03', 'crate::c14::free_chunk::<3, _>', unwind=12, stubs=('compat',), tiers=T, timeout=1500, mem_gb=8,
+      funcs=F14, bound='FreeformClass, every u32 in chunk 3 of 16'),
+    H('C14', 'c14_free_chunk_04', 'crate::c14::free_chunk::<4, _>', unwind=12, stubs=('compat',), tiers=T, timeout=1500, mem_gb=8,
+      funcs=F14, bound='FreeformClass, every u32 in chunk 4 of 16'),
+    H('C14', 'c14_free_chunk_05', 'crate::c14::free_chunk::<5, _>', unwind=12, stubs=('compat',), tiers=T, timeout=1500, mem_gb=8,
+      funcs=F14, bound='FreeformClass, every u32 in chunk 5 of 16'),
+    H('C14', 'c14_free_chunk_06', 'crate::c14::free_chunk::<6, _>', unwind=12, stubs=('compat',), tiers=T, timeout=1500, mem_gb=8,
+      funcs=F14, bound='FreeformClass, every u32 in chunk 6 of 16'),
+    H('C14', 'c14_free_chunk_07', 'crate::c14::free_chunk::<7, _>', unwind=12, stubs=('compat',), tiers=T, timeout=1500, mem_gb=8,
+      funcs=F14, bound='FreeformClass, every u32 in chunk 7 of 16'),
+    H('C14', 'c14_free_chunk_08', 'crate::c14::free_chunk::<8, _>', unwind=12, stubs=('compat',), tiers=T, timeout=1500, mem_gb=8,
+      funcs=F14, bound='FreeformClass, every u32 in chunk 8 of 16'),
+    H('C14', 'c14_free_chunk_09', 'crate::c14::free_chunk::<9, _>', unwind=12, stubs=('compat',), tiers=T, timeout=1500, mem_gb=8,
+      funcs=F14, bound='FreeformClass, every u32 in chunk 9 of 16'),
+    H('C14', 'c14_free_chunk_10', 'crate::c14::free_chunk::<10, _>', unwind=12, stubs=('compat',), tiers=T, timeout=1500, mem_gb=8,
+      funcs=F14, bound='FreeformClass, every u32 in chunk 10 of 16'),
+    H('C14', 'c14_free_chunk_11', 'crate::c14::free_chunk::<11, _>', unwind=12, stubs=('compat',), tiers=T, timeout=1500, mem_gb=8,
+      funcs=F14, bound='FreeformClass, every u32 in chunk 11 of 16'),
+    H('C14', 'c14_free_chunk_12', 'crate::c14::free_chunk::<12, _>', unwind=12, stubs=('compat',), tiers=T, timeout=1500, mem_gb=8,
+      funcs=F14, bound='FreeformClass, every u32 in chunk 12 of 16'),
+    H('C14', 'c14_free_chunk_13', 'crate::c14::free_chunk::<13, _>', unwind=12, stubs=('compat',), tiers=T, timeout=1500, mem_gb=8,
+      funcs=F14, bound='FreeformClass, every u32 in chunk 13 of 16'),
+    H('C14', 'c14_free_chunk_14', 'crate::c14::free_chunk::<14, _>', unwind=12, stubs=('compat',), tiers=T, timeout=1500, mem_gb=8,
+      funcs=F14, bound='FreeformClass, every u32 in chunk 14 of 16'),
+    H('C14', 'c14_free_chunk_15', 'crate::c14::free_chunk::<15, _>', unwind=12, stubs=('compat',), tiers=T, timeout=1500, mem_gb=8,
+      funcs=F14, bound='FreeformClass, every u32 in chunk 15 of 16'),
+    H('C14', 'c14_pred_get_exception_val', 'crate::c14::pred_real::<0, _>', unwind=7, stubs=('pred-except:get_exception_val',), timeout=1500, mem_gb=8,
+      funcs=['common::get_exception_val on its real generated tables: EXCEPTIONS (41)', 'common::is_in_table', 'stringclasses::get_derived_property_value',
+             'IdentifierClass::get_value_from_codepoint'] + F_SEARCH,
+      bound='every u32 (complete); binary search unwind 7 confirmed by unwinding assertions'),
+    H('C14', 'c14_pred_is_unassigned', 'crate::c14::pred_real::<1, _>', unwind=12, stubs=('pred-except:is_unassigned',), timeout=1500, mem_gb=8,
+      funcs=['common::is_unassigned on its real generated tables: UNASSIGNED (542), NONCHARACTER_CODE_POINT', 'common::is_in_table', 'stringclasses::get_derived_property_value',
+             'IdentifierClass::get_value_from_codepoint'] + F_SEARCH,
+      bound='every u32 (complete); binary search unwind 12 confirmed by unwinding assertions'),
+    H('C14', 'c14_pred_is_ascii7', 'crate::c14::pred_real::<2, _>', unwind=3, stubs=('pred-except:is_ascii7',), timeout=1500, mem_gb=8,
+      funcs=['common::is_ascii7 on its real generated tables: ASCII7', 'common::is_in_table', 'stringclasses::get_derived_property_value',
+             'IdentifierClass::get_value_from_codepoint'] + F_SEARCH,
+      bound='every u32 (complete); binary search unwind 3 confirmed by unwinding assertions'),
+    H('C14', 'c14_pred_is_join_control', 'crate::c14::pred_real::<3, _>', unwind=3, stubs=('pred-except:is_join_control',), timeout=1500, mem_gb=8,
+      funcs=['common::is_join_control on its real generated tables: JOIN_CONTROL', 'common::is_in_table', 'stringclasses::get_derived_property_value',
+             'IdentifierClass::get_value_from_codepoint'] + F_SEARCH,
+      bound='every u32 (complete); binary search unwind 3 confirmed by unwinding assertions'),
+    H('C14', 'c14_pred_is_old_hangul_jamo', 'crate::c14::pred_real::<4, _>', unwind=5, stubs=('pred-except:is_old_hangul_jamo',), timeout=1500, mem_gb=8,
+      funcs=['common::is_old_hangul_jamo on its real generated tables: LEADING/VOWEL/TRAILING_JAMO', 'common::is_in_table', 'stringclasses::get_derived_property_value',
+             'IdentifierClass::get_value_from_codepoint'] + F_SEARCH,
+      bound='every u32 (complete); binary search unwind 5 confirmed by unwinding assertions'),
+    H('C14', 'c14_pred_is_precis_ignorable_property', 'crate::c14::pred_real::<5, _>', unwind=7, stubs=('pred-except:is_precis_ignorable_property',), timeout=1500, mem_gb=8,
+      funcs=['common::is_precis_ignorable_property on its real generated tables: DEFAULT_IGNORABLE_CODE_POINT, NONCHARACTER_CODE_POINT', 'common::is_in_table', 'stringclasses::get_derived_property_value',
+             'IdentifierClass::get_value_from_codepoint'] + F_SEARCH,
+      bound='every u32 (complete); binary search unwind 7 confirmed by unwinding assertions'),
+    H('C14', 'c14_pred_is_control', 'crate::c14::pred_real::<6, _>', unwind=4, stubs=('pred-except:is_control',), timeout=1500, mem_gb=8,
+      funcs=['common::is_control on its real generated tables: CONTROL', 'common::is_in_table', 'stringclasses::get_derived_property_value',
+             'IdentifierClass::get_value_from_codepoint'] + F_SEARCH,
+      bound='every u32 (complete); binary search unwind 4 confirmed by unwinding assertions'),
+    H('C14', 'c14_pred_is_letter_digit', 'crate::c14::pred_real::<8, _>', unwind=12, stubs=('pred-except:is_letter_digit',), timeout=1500, mem_gb=8,
+      funcs=['common::is_letter_digit on its real generated tables: Ll, Lu, Lo, Nd, Lm, Mn, Mc tables', 'common::is_in_table', 'stringclasses::get_derived_property_value',
+             'IdentifierClass::get_value_from_codepoint'] + F_SEARCH,
+      bound='every u32 (complete); binary search unwind 12 confirmed by unwinding assertions'),
+    H('C14', 'c14_pred_is_other_letter_digit', 'crate::c14::pred_real::<9, _>', unwind=9, stubs=('pred-except:is_other_letter_digit',), timeout=1500, mem_gb=8,
+      funcs=['common::is_other_letter_digit on its real generated tables: Lt, Nl, No, Me tables', 'common::is_in_table', 'stringclasses::get_derived_property_value',
+             'IdentifierClass::get_value_from_codepoint'] + F_SEARCH,
+      bound='every u32 (complete); binary search unwind 9 confirmed by unwinding assertions'),
+    H('C14', 'c14_pred_is_space', 'crate::c14::pred_real::<10, _>', unwind=5, stubs=('pred-except:is_space',), timeout=1500, mem_gb=8,
+      funcs=['common::is_space on its real generated tables: SPACE_SEPARATOR', 'common::is_in_table', 'stringclasses::get_derived_property_value',
+             'IdentifierClass::get_value_from_codepoint'] + F_SEARCH,
+      bound='every u32 (complete); binary search unwind 5 confirmed by unwinding assertions'),
+    H('C14', 'c14_pred_is_symbol', 'crate::c14::pred_real::<11, _>', unwind=10, stubs=('pred-except:is_symbol',), timeout=1500, mem_gb=8,
+      funcs=['common::is_symbol on its real generated tables: Sm, Sc, Sk, So tables', 'common::is_in_table', 'stringclasses::get_derived_property_value',
+             'IdentifierClass::get_value_from_codepoint'] + F_SEARCH,
+      bound='every u32 (complete); binary search unwind 10 confirmed by unwinding assertions'),
+    H('C14', 'c14_pred_is_punctuation', 'crate::c14::pred_real::<12, _>', unwind=10, stubs=('pred-except:is_punctuation',), timeout=1500, mem_gb=8,
+      funcs=['common::is_punctuation on its real generated tables: Pc, Pd, Ps, Pe, Pi, Pf, Po tables', 'common::is_in_table', 'stringclasses::get_derived_property_value',
+             'IdentifierClass::get_value_from_codepoint'] + F_SEARCH,
+      bound='every u32 (complete); binary search unwind 10 confirmed by unwinding assertions'),
+    H('C14', 'c14_pairing', 'crate::c14::pairing', unwind=2, stubs=('pred',), timeout=600,
+      funcs=['stringclasses::get_derived_property_value', 'IdentifierClass/FreeformClass::{get_value_from_codepoint, get_value_from_char}',
+             'SpecificDerivedPropertyValue callbacks of both classes'],
+      bound='any u32, ANY outcome of every table predicate (loop-free): complete'),
+    H('C14', 'c14_decision_order', 'crate::c14::decision_order', unwind=2, stubs=('pred',), timeout=600,
+      funcs=['stringclasses::get_derived_property_value'],
+      bound='any u32, ANY outcome of every table predicate (loop-free): complete'),
 ]
 
 PROPS = ['C%02d' % i for i in range(1, 19)]
